@@ -73,6 +73,39 @@ type Node struct {
 	// items prop and fills its <slot :item :index :note="item.note"> once per item; the page
 	// supplies the slot content, which reads the props of THAT item (and page variables).
 	List *ListCall `json:"list,omitempty"`
+	// Pre is a <pre data-m=ID> element around loops whose bodies are Pieces: inside <pre>,
+	// white-space-only text between and after the elements of an instance is content, so the
+	// content of the rendered <pre> is compared exactly (text byte for byte, element tags).
+	Pre *PreBlock `json:"pre,omitempty"`
+	// Piece is <TAG>{{ path }}</TAG> (or bare {{ path }}, or nothing) followed by literal white space.
+	Piece *Piece `json:"piece,omitempty"`
+}
+
+// PreBlock: Body holds loops (<template> or <span data-m>) whose bodies hold Pieces and loops.
+type PreBlock struct {
+	ID   string `json:"id"`
+	Body []Node `json:"body"`
+}
+
+// Piece is one fragment of a line inside <pre>.
+type Piece struct {
+	Tag  string `json:"tag,omitempty"`
+	Path string `json:"path,omitempty"`
+	Ws   string `json:"ws,omitempty"`
+}
+
+// canonical renders the content of a parsed element: text exactly as it is, elements as
+// <tag>…</tag> without attributes.
+func canonical(kids []*hx.N) string {
+	var sb strings.Builder
+	for _, k := range kids {
+		if k.Tag == "" {
+			sb.WriteString(k.Text)
+			continue
+		}
+		sb.WriteString("<" + k.Tag + ">" + canonical(k.Kids) + "</" + k.Tag + ">")
+	}
+	return sb.String()
 }
 
 // ListCall: <template include="list.vuego" :items="ITEMS"><template v-slot="sp">CONTENT</template></template>,
@@ -253,8 +286,33 @@ var embAlias = map[string]bool{"ID": true, "Code": true, "Title": true, "Tags": 
 
 func isEmbRoot(k string) bool { return k == "eroot" || k == "*eroot" || k == "proot" }
 
-// Named element types: numbers whose Go type is not a predeclared one.
+// Task is an item type whose String method has a POINTER receiver: it belongs to *Task, not to
+// Task. A v-for over []*Task binds the *Task itself: {{ p }} prints through String(), type(p)
+// says *c04.Task, and a template function declared func(*Task) accepts the item.
+type Task struct {
+	ID    int
+	Title string
+}
+
+func (p *Task) String() string { return fmt.Sprintf("task#%d(%s)", p.ID, p.Title) }
+
+// funcs are registered with every engine: tbadge takes the item of a []*Task as it is.
+var funcs = vuego.FuncMap{"tbadge": func(p *Task) string { return "[" + p.Title + "]" }}
+
+func taskVal(v vals.V) *Task {
+	t := &Task{Title: v.M["Title"].S}
+	t.ID, _ = v.M["ID"].Go().(int)
+	return t
+}
+
+// Named element types: values whose Go type is not a predeclared one.
 type Qty int
+
+// Flag is a named bool, Name a named string.
+type Flag bool
+
+// Name is a named string.
+type Name string
 
 // Ratio is a named float32.
 type Ratio float32
@@ -282,6 +340,41 @@ func goVal(v vals.V) any {
 		out := make([]map[string]any, len(v.L))
 		for i, e := range v.L {
 			out[i], _ = goVal(vals.V{K: "map", M: e.M}).(map[string]any)
+		}
+		return out
+	case "*task":
+		return taskVal(v)
+	case "[]*task":
+		out := make([]*Task, len(v.L))
+		for i, e := range v.L {
+			out[i] = taskVal(e)
+		}
+		return out
+	case "[2]*task":
+		var out [2]*Task
+		for i := range out {
+			out[i] = &Task{}
+			if i < len(v.L) {
+				out[i] = taskVal(v.L[i])
+			}
+		}
+		return out
+	case "[]task":
+		out := make([]Task, len(v.L))
+		for i, e := range v.L {
+			out[i] = *taskVal(e)
+		}
+		return out
+	case "[]flag":
+		out := make([]Flag, len(v.L))
+		for i, e := range v.L {
+			out[i] = Flag(e.S == "true")
+		}
+		return out
+	case "[]name":
+		out := make([]Name, len(v.L))
+		for i, e := range v.L {
+			out[i] = Name(e.S)
 		}
 		return out
 	case "[]qty":
@@ -451,11 +544,11 @@ func render(c Case, tpl string) (string, error) {
 	var err error
 	switch c.API {
 	case "", "string":
-		err = vuego.New(vuego.WithFS(memfs.FromMap(map[string]string{"comp.vuego": compFile, "list.vuego": listFile}))).Fill(data).RenderString(context.Background(), &buf, tpl)
+		err = vuego.New(vuego.WithFS(memfs.FromMap(map[string]string{"comp.vuego": compFile, "list.vuego": listFile})), vuego.WithFuncs(funcs)).Fill(data).RenderString(context.Background(), &buf, tpl)
 	case "fragment":
-		err = vuego.NewVue(memfs.FromMap(map[string]string{"page.vuego": tpl, "comp.vuego": compFile, "list.vuego": listFile})).RenderFragment(&buf, "page.vuego", data)
+		err = vuego.NewVue(memfs.FromMap(map[string]string{"page.vuego": tpl, "comp.vuego": compFile, "list.vuego": listFile})).Funcs(funcs).RenderFragment(&buf, "page.vuego", data)
 	case "load":
-		err = vuego.NewFS(memfs.FromMap(map[string]string{"page.vuego": tpl, "comp.vuego": compFile, "list.vuego": listFile})).Load("page.vuego").Fill(data).Render(context.Background(), &buf)
+		err = vuego.NewFS(memfs.FromMap(map[string]string{"page.vuego": tpl, "comp.vuego": compFile, "list.vuego": listFile}), vuego.WithFuncs(funcs)).Load("page.vuego").Fill(data).Render(context.Background(), &buf)
 	default:
 		return "", fmt.Errorf("unknown api %q", c.API)
 	}
@@ -581,7 +674,11 @@ func checkOnce(c Case) error {
 		}
 		// own text is compared with all whitespace removed: where a text-only loop puts line breaks
 		// and indentation between its instances is layout (values never contain whitespace)
-		if squeeze(w.text) != squeeze(g.Text) {
+		if w.pre != nil {
+			if got := canonical(g.Node.Kids); got != *w.pre {
+				return fmt.Errorf("marker #%d %s: content of the <pre> is %q, expected %q (white space inside loop instances is content there)%s", i, w.id, got, *w.pre, show())
+			}
+		} else if squeeze(w.text) != squeeze(g.Text) {
 			return fmt.Errorf("marker #%d %s: text %q, expected %q (%s)%s", i, w.id, g.Text, w.text, w.why, show())
 		}
 		for k, v := range w.attrs {
@@ -684,6 +781,14 @@ func TestProp(t *testing.T) {
 	}
 	if ok {
 		rec.Exhaustive(fmt.Sprintf("core3: outer loop over []Emb / []PEmb / []*Emb (struct embedding a base by value / by pointer) held by a map, a struct field and a promoted root field x inner loop over the promoted item.Tags / item.Subs x inner variable name x v-else (%d cases)", n-n1))
+	}
+	// exhaustive core 4: loops inside <pre> with white-space-only text in their instances
+	n2 := n
+	if ok {
+		core4(each("core4"))
+	}
+	if ok {
+		rec.Exhaustive(fmt.Sprintf("core4: <template> / <span> loops inside <pre> x white-space separator (newline, blank, tab, two blanks) x 0..3 items x form x nested loop, content of the <pre> compared exactly (%d cases)", n-n2))
 	}
 	run.Rapid(t, rec, "nest", genCase, classify, check)
 }
